@@ -6,6 +6,7 @@ INVARIANT Result
 INVARIANT Unchanged
 INVARIANT ErrClass
 INVARIANT Default
+INVARIANT Again
 CHECK_DEADLOCK FALSE
 CONSTANTS
   Mutant = "dict_try_later"
